@@ -146,7 +146,7 @@ class DslProp(PropBase):
                 ref, rexc = exc_code(lambda: Product((a, b)) if kind == "mul" else Fraction(a, b))
                 if rexc is None:
                     violation = sem_check(res, ref, f"{kind}")
-            elif not (kind == "truediv" and exc == "ZeroDivisionError"):
+            elif exc != "ZeroDivisionError":  # a Zero reached a denominator: an operand is itself undefined, or b is Zero
                 violation = f"{kind} raised {exc}"
             feats.append(f"{type(a).__name__}x{type(b).__name__}")
         elif kind in ("marginalize", "conditional", "normalize_marginalize", "sum_safe", "sum_safe_simplify"):
